@@ -140,9 +140,10 @@ Proof.
 Qed.
 
 (* over a whole RunOnce: whatever differs between two worlds outside what group g can see — other groups' nodes, pods,
-   API copies, cloud groups — if g is reached in both runs, its journal, the memory it leaves and its outcome are equal *)
+   API copies, cloud groups, and the other groups' configuration, memory and oracles (e.g. their dry-mode switch) — if g
+   is reached in both runs, its journal, the memory it leaves and its outcome are equal *)
 Theorem run_once_isolated s s' g :
-  s_groups s = s_groups s' -> s_now s = s_now s' -> s_dry s = s_dry s' -> wf_groups s -> In g (s_groups s) ->
+  s_now s = s_now s' -> s_dry s = s_dry s' -> wf_groups s -> wf_groups s' -> In g (s_groups s) -> In g (s_groups s') ->
   group_nodes (gi_opts g) (s_nodes s) = group_nodes (gi_opts g) (s_nodes s') ->
   group_pods (gi_opts g) (s_pods s) = group_pods (gi_opts g) (s_pods s') ->
   api_agree (s_api s) (s_api s') (group_nodes (gi_opts g) (s_nodes s)) ->
@@ -150,11 +151,10 @@ Theorem run_once_isolated s s' g :
   forall r r', In (o_name (gi_opts g), r) (fst (run_once s)) -> In (o_name (gi_opts g), r') (fst (run_once s')) ->
   r_calls r = r_calls r' /\ r_state r = r_state r' /\ r_out r = r_out r'.
 Proof.
-  intros Hgs Hnow Hdry [Hn1 Hn2] Hg Hnodes Hpods Hapi Hasg r r' Hr Hr'.
+  intros Hnow Hdry [Hn1 Hn2] [Hn1' Hn2'] Hg Hg' Hnodes Hpods Hapi Hasg r r' Hr Hr'.
   unfold run_once in Hr, Hr'.
   destruct (run_groups_spec s (s_groups s) (s_cloud s) Hn2 _ _ Hr) as (g1 & a1 & Hg1 & Hname1 & Hf1 & Hc1 & Hs1 & Ho1).
-  rewrite <- Hgs in Hr'.
-  destruct (run_groups_spec s' (s_groups s) (s_cloud s') Hn2 _ _ Hr') as (g2 & a2 & Hg2 & Hname2 & Hf2 & Hc2 & Hs2 & Ho2).
+  destruct (run_groups_spec s' (s_groups s') (s_cloud s') Hn2' _ _ Hr') as (g2 & a2 & Hg2 & Hname2 & Hf2 & Hc2 & Hs2 & Ho2).
   assert (g1 = g) by (symmetry; eapply group_by_name; eauto). subst g1.
   assert (g2 = g) by (symmetry; eapply group_by_name; eauto). subst g2.
   rewrite Hasg in Hf1. rewrite Hf1 in Hf2. inversion Hf2; subst a2.
